@@ -1867,7 +1867,7 @@ func explainAlterCommand(sb *strings.Builder, cmd *ast.AlterCommand, indent stri
 		if cmd.Partition != nil {
 			if cmd.PartitionIsID {
 				if lit, ok := cmd.Partition.(*ast.Literal); ok {
-					fmt.Fprintf(sb, "%s Partition_ID Literal_\\'%s\\' (children 1)\n", indent, lit.Value)
+					fmt.Fprintf(sb, "%s Partition_ID Literal_%s (children 1)\n", indent, partitionIDLabel(lit))
 					Node(sb, cmd.Partition, depth+2)
 				} else {
 					fmt.Fprintf(sb, "%s Partition_ID (children 1)\n", indent)
@@ -1937,7 +1937,7 @@ func explainAlterCommand(sb *strings.Builder, cmd *ast.AlterCommand, indent stri
 			} else if cmd.PartitionIsID {
 				// PARTITION ID 'value' is shown as Partition_ID Literal_'value' (children 1)
 				if lit, ok := cmd.Partition.(*ast.Literal); ok {
-					fmt.Fprintf(sb, "%s Partition_ID Literal_\\'%s\\' (children 1)\n", indent, lit.Value)
+					fmt.Fprintf(sb, "%s Partition_ID Literal_%s (children 1)\n", indent, partitionIDLabel(lit))
 					Node(sb, cmd.Partition, depth+2)
 				} else {
 					fmt.Fprintf(sb, "%s Partition_ID (children 1)\n", indent)
@@ -1966,7 +1966,7 @@ func explainAlterCommand(sb *strings.Builder, cmd *ast.AlterCommand, indent stri
 			} else if cmd.PartitionIsID {
 				// PARTITION ID 'value' is shown as Partition_ID Literal_'value' (children 1)
 				if lit, ok := cmd.Partition.(*ast.Literal); ok {
-					fmt.Fprintf(sb, "%s Partition_ID Literal_\\'%s\\' (children 1)\n", indent, lit.Value)
+					fmt.Fprintf(sb, "%s Partition_ID Literal_%s (children 1)\n", indent, partitionIDLabel(lit))
 					Node(sb, cmd.Partition, depth+2)
 				} else {
 					fmt.Fprintf(sb, "%s Partition_ID (children 1)\n", indent)
@@ -2345,7 +2345,7 @@ func explainOptimizeQuery(sb *strings.Builder, n *ast.OptimizeQuery, indent stri
 		} else if n.PartitionByID {
 			// PARTITION ID 'value' is shown as Partition_ID Literal_'value' (children 1)
 			if lit, ok := n.Partition.(*ast.Literal); ok {
-				fmt.Fprintf(sb, "%s Partition_ID Literal_\\'%s\\' (children 1)\n", indent, lit.Value)
+				fmt.Fprintf(sb, "%s Partition_ID Literal_%s (children 1)\n", indent, partitionIDLabel(lit))
 				Node(sb, n.Partition, depth+2)
 			} else {
 				fmt.Fprintf(sb, "%s Partition_ID (children 1)\n", indent)
@@ -2694,4 +2694,13 @@ func getParallelWithName(stmt ast.Statement) string {
 	default:
 		return "Statement"
 	}
+}
+
+// partitionIDLabel renders the literal of PARTITION ID <literal> the way ClickHouse names a
+// literal node: a string as an escaped quoted string, anything else in its Literal form.
+func partitionIDLabel(lit *ast.Literal) string {
+	if s, ok := lit.Value.(string); ok && lit.Type == ast.LiteralString {
+		return "\\'" + escapeStringLiteral(s) + "\\'"
+	}
+	return FormatLiteral(lit)
 }
